@@ -66,6 +66,7 @@ func (c *Ctx) acceptOnly(fn *ssa.Function, errIdx int, conds []acceptCond) {
 func runC23(c *Ctx) {
 	w := c.W
 	pkg := "z/rsa"
+	c23Extras(c)
 	if w.Pkg(pkg) == nil {
 		c.Undecided("R-PRE", pkg, "package", "-", "not loaded")
 		return
